@@ -417,6 +417,19 @@ def main():
                 exhaustive = False
                 os.remove(path)
                 continue
+            UB = ('asan/', 'ubsan/', 'crash/')
+            viol1 = [o for o in o1 if o != 'none']
+            if (r1.returncode in (1, 3) and r2.returncode == r1.returncode and o1 == o2 and sig not in o1 and sig.startswith(UB)
+                    and viol1 and all(o.startswith(UB) for o in viol1)):
+                # the exploring worker saw one sanitizer report for this case and the case run alone gives, both times, another
+                # one: undefined behaviour (a wild pointer, say) whose manifestation depends on what the process executed before.
+                # The violation that is reported is the one the replay file reproduces.
+                v = dict(v, detail=f'replay alone reports {viol1[0]}; the exploring worker reported {sig} for the same case '
+                                   f'(undefined behaviour, manifestation depends on process history). ' + v['detail'])
+                sig = viol1[0]
+                rep['signature'] = sig
+                rep['signature_during_exploration'] = vs[0]['sig']
+                json.dump(rep, open(path, 'w'), indent=1)
             if r1.returncode not in (1, 3) or r2.returncode != r1.returncode or o1 != o2 or sig not in o1:
                 harness_errors.append(f'replay of {sig} case {v["case"]} is not reproducible (rc {r1.returncode}/{r2.returncode})')
                 continue
